@@ -21,16 +21,11 @@ SortCodes(q) == LET S == {q[i] : i \in 1..Len(q)} IN
 RECURSIVE Flatten(_)
 Flatten(qq) == IF qq = <<>> THEN <<>> ELSE Head(qq) \o Flatten(Tail(qq))
 
-(* __get_st_errors: element errors on ST/SE are translated through {1:'6', 2:'7'}; any other position raises KeyError *)
+(* __get_st_errors: element errors on ST/SE at position 1 / 2 are translated to the notes 6 / 7; other positions give no note *)
 HasW(mark, w) == InSeq(w, mark)
-StEleBad(st) == \E k \in 1..Len(st.eles) : \E m \in 1..Len(st.eles[k].errs) :
-                   (HasW(st.eles[k].marks[m], "ST") \/ HasW(st.eles[k].marks[m], "SE")) /\ st.eles[k].pos \notin {1, 2}
 StEleCodes(st) == Flatten([k \in 1..Len(st.eles) |-> Flatten([m \in 1..Len(st.eles[k].errs) |->
-                     IF HasW(st.eles[k].marks[m], "ST") \/ HasW(st.eles[k].marks[m], "SE") THEN <<IF st.eles[k].pos = 1 THEN "6" ELSE "7">> ELSE <<>>])])
-(* __get_isa_errors (only when a TA1 is requested): isa_ele_err_map has 1..16, iea_ele_err_map 1..2; anything else raises KeyError *)
-IsaEleBad(isa) == \E k \in 1..Len(isa.eles) : \E m \in 1..Len(isa.eles[k].errs) :
-                    \/ HasW(isa.eles[k].marks[m], "ISA") /\ isa.eles[k].pos \notin 1..16
-                    \/ ~HasW(isa.eles[k].marks[m], "ISA") /\ HasW(isa.eles[k].marks[m], "IEA") /\ isa.eles[k].pos \notin {1, 2}
+                     IF (HasW(st.eles[k].marks[m], "ST") \/ HasW(st.eles[k].marks[m], "SE")) /\ st.eles[k].pos \in {1, 2}
+                     THEN <<IF st.eles[k].pos = 1 THEN "6" ELSE "7">> ELSE <<>>])])
 SegHasEleErr(sg) == \E k \in 1..Len(sg.eles) : sg.eles[k].errs # <<>>
 SegErrCt(sg) == Len(sg.errs) + (IF SegHasEleErr(sg) THEN 1 ELSE 0)
 StChildErrCt(st) == Cardinality({k \in 1..Len(st.segs) : SegErrCt(st.segs[k]) > 0})
@@ -54,6 +49,8 @@ Valid3_999 == Valid3_997 \cup {"I4", "I6", "I7", "I8", "I9"}
 Valid4_997 == {"1", "2", "3", "4", "5", "6", "7", "8", "9", "10"}
 Valid4_999 == Valid4_997 \cup {"12", "13", "I10", "I11", "I12", "I13", "I6", "I9"}
 PosEl(el) == IF el.sub > 0 THEN <<ToString(el.pos), ToString(el.sub)>> ELSE <<ToString(el.pos)>>
-(* Segment.set(ref, value) builds Composite(value, ':'): the value is cut at the component separator *)
-SetVal(v) == SplitStr(v, SUB)
+(* the echoed value: every separator of the acknowledgement is replaced by a blank, and the value is set as ONE component *)
+RECURSIVE Blanked(_, _, _)
+Blanked(v, seps, i) == IF i > Len(v) THEN "" ELSE (IF SubSeq(v, i, i) \in seps THEN " " ELSE SubSeq(v, i, i)) \o Blanked(v, seps, i + 1)
+Echo(v, seps) == << Blanked(v, seps, 1) >>
 =============================================================================
